@@ -26,7 +26,7 @@ def run(replay=None):
         "page size is a power of two (2^1..2^62); address + length does not wrap at 2^64",
         "mprotect and copy are modelled as atomic steps; instruction fetch by other threads during the copy is hardware behaviour outside the model",
         "go2v's extraction of the mProtectCrossPage loop (init/bound/stride) and of the WriteTo step order",
-        "the function-extent scan is exercised (every function of the harness binary + synthetic functions of sizes 2..40), not proved here (see C16)",
+        "the extent scan (Model/FuncSize.v) ends a function at INT3 padding: a function that fills its alignment slot exactly is scanned through into its neighbour (over-estimate). That is harmless only because such a function is at least one alignment unit (>= 16 bytes) long; measured per run on every function of the harness binary (extent_sweep: no function whose own extent is below the jump length is accepted). Hand-made code with a shorter unpadded function directly in front of another one is outside the quantifier (functions of the binary)",
     ]
     status = vlib.run_go2v()
     tr = [m for m in status if m["module"] == "Page"][0]
@@ -49,6 +49,61 @@ def run(replay=None):
         ck.impl_violation("write-crashes:" + why, "the harness process died (%s) while writing into the sacrificial region%s" % (
             why, (" after write #%d" % last[-1]["i"]) if last else ""), {"log_tail": out[-1500:], "last_reported_write": last[-1] if last else None})
         # find the failing write by replaying with the strace-free single stepping below
+    # ---- syscall trace of one write through the FALLBACK writer (memory.writeTo) and one through WriteTo on two sacrificial
+    # pages: which protections do the pages pass through?  (strace; skipped with a note when tracing is not permitted)
+    import re as _re
+    import shutil as _sh
+    import subprocess as _sp
+    if _sh.which("strace"):
+        tpath, topath = os.path.join(ck.wd, "fallback.strace"), os.path.join(ck.wd, "obs_fb.jsonl")
+        e = vlib.go_env()
+        e["GOOM_VERIF"] = "1"
+        try:
+            tr = _sp.run(["strace", "-f", "-e", "trace=mprotect", "-o", tpath, hx, "c14", "-extra", "fallback-trace", "-seed", str(ck.seed), "-out", topath],
+                         capture_output=True, text=True, timeout=300, env=e, cwd=vlib.WORK)
+            frec = [r for r in (vlib.read_jsonl(topath) if os.path.exists(topath) else []) if r.get("kind") == "fallback-trace"]
+        except Exception as ex:   # noqa
+            tr, frec = None, []
+            ck.notes["fallback_trace"] = "skipped: %s" % ex
+        if tr is not None and tr.returncode == 0 and frec and os.path.exists(tpath):
+            fr = frec[0]
+            pages = [fr["page0"], fr["page1"]]
+            PROT = {"PROT_READ": 1, "PROT_WRITE": 2, "PROT_EXEC": 4, "PROT_NONE": 0}
+            seq = []
+            for line in open(tpath):
+                m = _re.search(r"mprotect\((0x[0-9a-f]+), (\d+), ([A-Z_|]+)\)\s*=\s*0", line)
+                if m and m.group(1) in pages:
+                    seq.append([pages.index(m.group(1)), sum(PROT.get(x, 0) for x in m.group(3).split("|"))])
+            ck.notes["fallback_trace"] = {"mprotect_sequence_on_the_two_pages": seq, "landed": fr["landed"], "perms_after": fr["perms_after"]}
+            ck.coverage["evaluations_trace"] = len(seq)
+            fb, main = seq[:4], seq[4:8]
+            if len(seq) != 8:
+                ck.obligation_broken("syscall trace of the two writers: expected 8 mprotect calls on the two pages, saw %d" % len(seq), json.dumps(seq))
+            else:
+                # the model's prediction for both writers from the REGENERATED shapes
+                src = ("From Coq Require Import List ZArith. Import ListNotations.\nFrom Goom Require Import Model.WriteTo. From Goom Require Gen.Page. Open Scope Z_scope.\n"
+                       "Definition prots (sh : list wkind) : list Z := flat_map (fun s => match s with Mprot p prot => [(p - 8192) / 4096; prot] | Copy _ _ => [] end) (steps_of 4096 (2 * 4096 + 4096 - 5) [1;2;3;4;5;6;7;8;9;10;11;12;13] sh).\n"
+                       "Definition M := Eval vm_compute in (prots Gen.Page.writeTo_fallback_shape, prots Gen.Page.WriteTo_shape).\nPrint M.\n")
+                rc3, out3 = vlib.coq_eval("c14_trace", src, ck.wd, timeout=300)
+                nums = [int(x) for x in _re.findall(r"-?\d+", out3.split(":")[0])] if rc3 == 0 else []
+                want = [[nums[i], nums[i + 1]] for i in range(0, len(nums) - 1, 2)]
+                if rc3 != 0 or len(want) != 8:
+                    ck.obligation_broken("correspondence C14 syscall trace (coqc evaluation failed)", out3[-800:])
+                elif want != fb + main:
+                    ck.obligation_broken("correspondence C14: the mprotect calls of the two writers differ from the model's steps", json.dumps({"observed": seq, "model": want}))
+                if not fr["landed"] or fr["err"]:
+                    ck.impl_violation("fallback-write-lands-wrong", "the fallback writer did not write the 13 bytes across the page boundary", fr)
+                if any(not p.startswith("r-x") for p in fr["perms_after"]):
+                    ck.impl_violation("page-left-not-rx", "after the fallback writer page permissions are %s" % fr["perms_after"], fr)
+                if any(not (prot & 4) for _, prot in main):
+                    ck.impl_violation("writer-drops-exec", "WriteTo passes the pages through protections %s: a page is not executable while it is written" % [p for _, p in main], {"sequence": main})
+                if any(not (prot & 4) for _, prot in fb):
+                    ck.impl_violation("fallback-writer-drops-exec", "memory.writeTo (the writer used when mprotect(RWX) is refused) passes the pages through protections %s: they are not executable while they are written" % [p for _, p in fb],
+                                      {"sequence": fb, "pages": pages})
+        elif tr is not None:
+            ck.notes["fallback_trace"] = "skipped: strace exit %s %s" % (tr.returncode, (tr.stderr or "")[-200:])
+    else:
+        ck.notes["fallback_trace"] = "skipped: strace not installed"
     region = [r for r in rows if r.get("kind") == "region"]
     summ = [r for r in rows if r.get("kind") == "writes_summary"]
     for r in rows:
